@@ -1304,8 +1304,14 @@ func specEntryOK(imp *ast.Import, k int) bool { return imp != nil && (k == 0 || 
 // type only if its KEY type is of one of those kinds or implements one of the
 // two interfaces. The recursion reaches every map type nested in the shown
 // type through this same function, so the postcondition on one call covers
-// nested maps by induction on the type.
+// nested maps by induction on the type. For a struct the induction needs every
+// exported field to be looked at (the renderer shows every exported field whose
+// json tag is not exactly "-"): each iteration over an exported field ends with
+// the recursive call on that field's type.
 // ---------------------------------------------------------------------------
+
+// lastArgType(f, i): the i-th argument (a reflect.Type) of the latest tracked call of f.
+func lastArgType(f string, i int) reflect.Type { return nil }
 
 func specMapKeyOK(k reflect.Type) bool {
 	return k.Kind() == reflect.String || reflect.Bool <= k.Kind() && k.Kind() <= reflect.Complex128 ||
@@ -1325,13 +1331,19 @@ func specJSONEarly(t reflect.Type) bool {
 //@ func checkShowJS
 //@   props X00 C09
 //@   opt puremethods Kind Key Elem Implements NumField Field
+//@   opt track checkShowJS
 //@   panics allowed
+//@   loop 0
+//@     invariant[C09] i > 0 && t.Field(i-1).PkgPath == "" ==> called("checkShowJS") && lastArgType("checkShowJS", 0) == t.Field(i-1).Type
 //@   ensures[C09] result == nil && t.Kind() == reflect.Map && !specJSEarly(t) && !slices.Contains(types, t) ==> specMapKeyOK(t.Key())
 
 //@ func checkShowJSON
 //@   props X00 C09
 //@   opt puremethods Kind Key Elem Implements NumField Field
+//@   opt track checkShowJSON
 //@   panics allowed
+//@   loop 0
+//@     invariant[C09] i > 0 && t.Field(i-1).PkgPath == "" ==> called("checkShowJSON") && lastArgType("checkShowJSON", 0) == t.Field(i-1).Type
 //@   ensures[C09] result == nil && t.Kind() == reflect.Map && !specJSONEarly(t) && !slices.Contains(types, t) ==> specMapKeyOK(t.Key())
 
 // ---------------------------------------------------------------------------
